@@ -201,6 +201,7 @@ def run(P, R, tier):
                     nd += 1
                     R.check(fn in ('self.__class__', 'type(self)', 'cls'), 'C16.d', f, s, f'{name} constructs the receiver\'s own class', f'{name} constructs `{fn}`: a derived ring/polygon array changes its kind')
     R.floor('C16.d', 'derivation constructor sites', nd, 6)
+    take_small_scope(P, R, ga)
     selection_shortcuts(P, R, ga)
     # C16.g: every scalar handed out by an array is built like the one `__getitem__` builds: (python value, the array's numpy dtype).  Point scalars
     # need the dtype (their data is a raw byte string); without it an int64 / float32 point is reinterpreted as float64
@@ -325,6 +326,65 @@ def bitmap_small_scope(P, R, ex):
     R.check(not bad, 'C16.a', ex, None, f'the missing mask equals the cleared bits [offset, offset + n) of the validity bitmap on all {total} evaluated (offset, length, pattern) cases',
             f'the missing mask differs from the validity bits on {len(bad)} of {total} cases, e.g. {bad[:2]}: a sliced array reads the validity of other elements',
             construct='validity bitmap small-scope equivalence', counterexamples=bad[:4])
+
+
+def take_small_scope(P, R, ga):
+    """C16.f (whole function, exhaustive within the scope): `take(indices, allow_fill=False)` is interpreted by E-VEC for every index vector of length <= 4
+    over -n..n-1 (n <= 4): it must gather exactly the positions [i mod n] in the order requested (whether through arrow take or through a slice served
+    by any helper), and raise for an index outside -n <= i < n."""
+    import itertools as _it
+    import veceval
+    mem = ga.members.get('take')
+    if mem is None or mem[0] != 'func':
+        return
+    f = mem[1]
+    ip = f.params[1]
+    bad, total, undec = [], 0, None
+    for n_ in range(0, 5):
+        for ln in range(0, 5 if n_ else 2):
+            for vals in _it.product(range(-n_ - 1, n_ + 1), repeat=ln):
+                vals = list(vals)
+                total += 1
+                env = {ip: list(vals)}
+                for p_, v_ in zip(f.params[2:], (False, None)):
+                    env[p_] = v_
+                ev = veceval.VecEval(P, f, env, n_)
+                try:
+                    ev.block(f.node.body)
+                    got = 'no return'
+                except veceval.Returned as r_:
+                    got = r_.value
+                except veceval.Unsupported as e_:
+                    undec = str(e_)
+                    break
+                except (IndexError, TypeError, ValueError, ZeroDivisionError) as e_:
+                    got = f'error {type(e_).__name__}'
+                valid = all(-n_ <= i < n_ for i in vals)
+                want = [i % n_ for i in vals] if valid and n_ else ([] if not vals else None)
+                if isinstance(got, veceval.SelfSlice):
+                    pos = got.positions(n_)
+                elif isinstance(got, veceval.Gather):
+                    pos = list(got.idx)
+                elif isinstance(got, list):
+                    pos = got
+                else:
+                    pos = got
+                if valid and (n_ or not vals):
+                    if pos != want:
+                        bad.append({'n': n_, 'indices': vals, 'positions returned': pos if isinstance(pos, list) else str(pos), 'wanted': want})
+                elif pos != 'raise':
+                    bad.append({'n': n_, 'indices': vals, 'positions returned': pos if isinstance(pos, list) else str(pos), 'wanted': 'IndexError'})
+            if undec:
+                break
+        if undec:
+            break
+    if undec:
+        R.abstain('C16.f', f, None, f'take uses a construct the small-scope evaluator does not model ({undec})', construct='take small-scope equivalence')
+        return
+    R.count('typed_ops', total)
+    R.exhaustive_sites['C16.f take(allow_fill=False): all index vectors of length <= 4 over -n-1..n, n <= 4'] = True
+    R.check(not bad, 'C16.f', f, None, f'take(indices) gathers exactly the requested positions, in order, and rejects indices outside -n <= i < n ({total} index vectors)',
+            f'take(indices) differs from a positional gather on {len(bad)} of {total} index vectors, e.g. {bad[:3]}', construct='take small-scope equivalence', counterexamples=bad[:5])
 
 
 def selection_shortcuts(P, R, ga):
